@@ -1,0 +1,322 @@
+//go:build verif
+
+// Contracts for the Batch converter, checked by /verif/govc (build tag verif
+// only).  cmd.exe is not available to the verifier: what is proved is that the
+// emitter produces the specified templates, labels and jumps for all inputs;
+// cmd.exe's meaning of those templates is a trusted shell fact.
+
+package batch
+
+import (
+	"strconv"
+
+	"github.com/monstermichl/typeshell/parser"
+)
+
+func specHelperName(k int) string {
+	return "_h" + strconv.Itoa(k)
+}
+
+// specName: locals of the k-th emitted function are mangled f<k>_<name>
+// (cmd.exe has one flat variable namespace).
+func specName(inFunc bool, k int, name string, global bool) string {
+	if inFunc && !global {
+		return "f" + strconv.Itoa(k) + "_" + name
+	}
+	return name
+}
+
+// specRef: delayed expansion, evaluated at run time.
+func specRef(name string) string {
+	return "!" + name + "!"
+}
+
+func specSet(name string, value string) string {
+	return "set \"" + name + "=" + value + "\""
+}
+
+func specForLabel(k int) string {
+	return ":_f" + strconv.Itoa(k)
+}
+
+func specEndLabel(k int) string {
+	return ":_e" + strconv.Itoa(k)
+}
+
+func specIfLabel(k int) string {
+	return ":_i" + strconv.Itoa(k)
+}
+
+// specCompareOp: the IF comparison word (cmd.exe IF /?); "" = not defined for the type.
+func specCompareOp(t parser.ValueType, op string) string {
+	if t.IsSlice() {
+		return ""
+	}
+	switch t.DataType() {
+	case parser.DATA_TYPE_BOOLEAN, parser.DATA_TYPE_STRING:
+		switch op {
+		case "==":
+			return "equ"
+		case "!=":
+			return "neq"
+		}
+	case parser.DATA_TYPE_INTEGER:
+		switch op {
+		case "==":
+			return "equ"
+		case "!=":
+			return "neq"
+		case "<":
+			return "lss"
+		case "<=":
+			return "leq"
+		case ">":
+			return "gtr"
+		case ">=":
+			return "geq"
+		}
+	}
+	return ""
+}
+
+// specQuote: strings are compared quoted (string comparison), numbers and
+// booleans unquoted (IF then compares numerically).
+func specQuote(t parser.ValueType) string {
+	if !t.IsSlice() && t.DataType() == parser.DATA_TYPE_STRING {
+		return "\""
+	}
+	return ""
+}
+
+// specArithOp: the set /A operator; % must be doubled inside a batch file.
+func specArithOp(t parser.ValueType, op string) string {
+	if t.IsSlice() || t.DataType() != parser.DATA_TYPE_INTEGER {
+		return ""
+	}
+	switch op {
+	case "*", "/", "+", "-":
+		return op
+	case "%":
+		return "%%"
+	}
+	return ""
+}
+
+func specConcat(t parser.ValueType, op string) bool {
+	return !t.IsSlice() && t.DataType() == parser.DATA_TYPE_STRING && op == "+"
+}
+
+// specBlockBefore: content of the block the next emitted line is routed to
+// (a function's lines are collected in a block of their own, opened on demand).
+func specBlockBefore(c *converter) []string {
+	if len(c.funcs) > 0 {
+		if c.funcs[len(c.funcs)-1].name != c.previousFunctionName {
+			return []string{}
+		}
+		return c.functionsCode[len(c.functionsCode)-1]
+	}
+	return c.globalCode
+}
+
+// specBlock: the block that received the last emitted line.
+func specBlock(c *converter) []string {
+	if len(c.funcs) > 0 {
+		return c.functionsCode[len(c.functionsCode)-1]
+	}
+	return c.globalCode
+}
+
+func forInfoOf(label string) forInfo {
+	return forInfo{label: label}
+}
+
+func ifInfoOf(label string) ifInfo {
+	return ifInfo{label: label}
+}
+
+func funcInfoOf(name string) funcInfo {
+	return funcInfo{name: name}
+}
+
+// ----------------------------------------------------------------------------
+// Representation invariant of the converter (label allocators and stacks):
+//   - a block exists whenever a line can be routed to "the current function's block"
+//   - no live loop / if / end label equals a label a later allocation will hand out
+//   - live labels are pairwise distinct
+//   - one end label per open loop
+//
+//@ define routeOK(c): (c.previousFunctionName != "" ==> len(c.functionsCode) > 0) && forall(k, 0, len(c.funcs), c.funcs[k].name != "")
+//@ define forsFresh(c): forall(k, 0, len(c.fors), forall(m, c.forCounter, inf, c.fors[k].label != specForLabel(m))) && forall(j, 0, len(c.fors), forall(k, j + 1, len(c.fors), c.fors[j].label != c.fors[k].label))
+//@ define endsFresh(c): len(c.endLabels) == len(c.fors) && forall(k, 0, len(c.endLabels), forall(m, c.endCounter, inf, c.endLabels[k] != specEndLabel(m))) && forall(j, 0, len(c.endLabels), forall(k, j + 1, len(c.endLabels), c.endLabels[j] != c.endLabels[k]))
+//@ define ifsFresh(c): forall(k, 0, len(c.ifs), forall(m, c.ifCounter, inf, c.ifs[k].label != specIfLabel(m))) && forall(j, 0, len(c.ifs), forall(k, j + 1, len(c.ifs), c.ifs[j].label != c.ifs[k].label))
+//@ define countersOK(c): c.forCounter >= 0 && c.endCounter >= 0 && c.ifCounter >= 0 && c.varCounter >= 0
+//
+//@ invariant (*converter) c [C05,C13,C16] route: routeOK(c)
+//
+//@ func (*converter).addLine
+//@   ensures[C05,C16] routed-to-current-block: appended(specBlock(c), old(specBlockBefore(c)), line)
+//@   ensures[C05,C16] route-kept: routeOK(c)
+//@   ensures[C05,C14] frame: sameExcept(c, old(c), "globalCode", "functionsCode", "previousFunctionName")
+//@   ensures[C05] global-untouched-in-function: len(c.funcs) > 0 ==> c.globalCode == old(c.globalCode)
+//@   ensures[C05] next-line-same-block: specBlockBefore(c) == specBlock(c)
+//
+//@ func (*converter).nextHelperVar
+//@   ensures[C05,C10] fresh-name: result == specHelperName(old(c.varCounter)) && c.varCounter == old(c.varCounter) + 1
+//@   ensures[C05,C14] frame: sameExcept(c, old(c), "varCounter")
+//
+//@ func (*converter).varName
+//@   ensures[C05,C10] mangling: result == specName(len(c.funcs) > 0, c.funcCounter, name, global)
+//
+//@ func (*converter).varAssignmentString
+//@   ensures[C05] set-text: result == specSet(specName(len(c.funcs) > 0, c.funcCounter, name, global), value)
+//
+//@ func (*converter).varEvaluationString
+//@   ensures[C05] delayed-reference: result == specRef(specName(len(c.funcs) > 0, c.funcCounter, name, global))
+//
+//@ func (*converter).nextForLabel
+//@   requires[C05,C16] live-labels-fresh: forsFresh(c) && c.forCounter >= 0
+//@   ensures[C05,C16] fresh-label: result == specForLabel(old(c.forCounter)) && c.forCounter == old(c.forCounter) + 1
+//@   ensures[C05,C16] not-a-live-label: forall(k, 0, len(c.fors), c.fors[k].label != result)
+//@   ensures[C05] frame: sameExcept(c, old(c), "forCounter")
+//
+//@ func (*converter).nextIfLabel
+//@   requires[C05,C16] live-labels-fresh: ifsFresh(c) && c.ifCounter >= 0
+//@   ensures[C05,C16] fresh-label: result == specIfLabel(old(c.ifCounter)) && c.ifCounter == old(c.ifCounter) + 1
+//@   ensures[C05,C16] not-a-live-label: forall(k, 0, len(c.ifs), c.ifs[k].label != result)
+//@   ensures[C05] frame: sameExcept(c, old(c), "ifCounter")
+//
+//@ func (*converter).nextEndLabel
+//@   requires[C05,C16] live-labels-fresh: forall(k, 0, len(c.endLabels), forall(m, c.endCounter, inf, c.endLabels[k] != specEndLabel(m))) && c.endCounter >= 0
+//@   ensures[C05,C16] fresh-label: result == specEndLabel(old(c.endCounter)) && c.endCounter == old(c.endCounter) + 1 && appended(c.endLabels, old(c.endLabels), result)
+//@   ensures[C05,C16] not-a-live-label: forall(k, 0, len(old(c.endLabels)), old(c.endLabels)[k] != result)
+//@   ensures[C05] frame: sameExcept(c, old(c), "endCounter", "endLabels")
+//
+//@ func (*converter).mustCurrentForLabel
+//@   requires[C13,C16] in-loop: len(c.fors) > 0
+//@   ensures[C05,C16] innermost-open-loop: result == c.fors[len(c.fors) - 1].label
+//
+//@ func (*converter).mustCurrentEndLabel
+//@   requires[C13,C16] in-loop: len(c.endLabels) > 0
+//@   ensures[C05,C16] innermost-open-loop: result == c.endLabels[len(c.endLabels) - 1]
+//
+//@ func (*converter).mustCurrentIfInfo
+//@   requires[C13,C16] in-if: len(c.ifs) > 0
+//@   ensures[C05,C16] innermost-open-if: result == c.ifs[len(c.ifs) - 1]
+//
+//@ func (*converter).mustCurrentFuncInfo
+//@   requires[C13,C16] in-function: len(c.funcs) > 0
+//@   ensures[C05] innermost: result == c.funcs[len(c.funcs) - 1]
+//
+//@ func (*converter).ifStart
+//@   ensures[C05,C16] opens-paren-block: appended(specBlock(c), old(specBlockBefore(c)), startAddition + "if \"" + condition + "\" equ \"1\" (") && result == nil && routeOK(c)
+//@   ensures[C05] frame: sameExcept(c, old(c), "globalCode", "functionsCode", "previousFunctionName")
+//
+//@ func (*converter).IfStart
+//@   requires[C13,C16] inv: ifsFresh(c) && c.ifCounter >= 0
+//@   ensures[C05,C16] pushes-fresh-label: appended(c.ifs, old(c.ifs), ifInfoOf(specIfLabel(old(c.ifCounter)))) && c.ifCounter == old(c.ifCounter) + 1
+//@   ensures[C05,C16] line: appended(specBlock(c), old(specBlockBefore(c)), "if \"" + condition + "\" equ \"1\" (") && result == nil
+//@   ensures[C05,C16] inv-kept: routeOK(c) && ifsFresh(c)
+//@   ensures[C05] frame: sameExcept(c, old(c), "globalCode", "functionsCode", "previousFunctionName", "ifs", "ifCounter")
+//
+//@ func (*converter).ElseIfStart
+//@   requires[C13,C16] inv: len(c.ifs) > 0
+//@   ensures[C05,C16] leaves-to-own-end-label: appended(specBlock(c), old(specBlockBefore(c)), "goto " + c.ifs[len(c.ifs) - 1].label, ") else if \"" + condition + "\" equ \"1\" (") && result == nil
+//@   ensures[C05,C16] inv-kept: routeOK(c) && c.ifs == old(c.ifs)
+//
+//@ func (*converter).ElseStart
+//@   requires[C13,C16] inv: len(c.ifs) > 0
+//@   ensures[C05,C16] leaves-to-own-end-label: appended(specBlock(c), old(specBlockBefore(c)), "goto " + c.ifs[len(c.ifs) - 1].label, ") else (") && result == nil
+//@   ensures[C05,C16] inv-kept: routeOK(c) && c.ifs == old(c.ifs)
+//
+//@ func (*converter).IfEnd
+//@   requires[C13,C16] inv: len(c.ifs) > 0 && ifsFresh(c)
+//@   ensures[C05,C16] defines-own-end-label-once: appended(specBlock(c), old(specBlockBefore(c)), "goto " + old(c.ifs)[len(old(c.ifs)) - 1].label, ")", old(c.ifs)[len(old(c.ifs)) - 1].label) && result == nil
+//@   ensures[C05,C16] pops: len(c.ifs) == len(old(c.ifs)) - 1 && samePrefix(c.ifs, old(c.ifs)) && c.ifCounter == old(c.ifCounter)
+//@   ensures[C05,C16] inv-kept: routeOK(c) && ifsFresh(c)
+//
+//@ func (*converter).ForStart
+//@   requires[C13,C16] inv: forsFresh(c) && endsFresh(c) && c.forCounter >= 0 && c.endCounter >= 0
+//@   ensures[C05,C16] pushes-fresh-labels: appended(c.fors, old(c.fors), forInfoOf(specForLabel(old(c.forCounter)))) && c.forCounter == old(c.forCounter) + 1 && appended(c.endLabels, old(c.endLabels), specEndLabel(old(c.endCounter))) && c.endCounter == old(c.endCounter) + 1
+//@   ensures[C05,C16] lines: appended(specBlock(c), old(specBlockBefore(c)), "set \"_fv" + itoa(old(c.forCounter)) + "=\"", specForLabel(old(c.forCounter))) && result == nil
+//@   ensures[C05,C16] inv-kept: routeOK(c) && forsFresh(c) && endsFresh(c)
+//
+//@ func (*converter).ForCondition
+//@   ensures[C05,C16] opens-body-block: appended(specBlock(c), old(specBlockBefore(c)), "if \"" + condition + "\" equ \"1\" (") && result == nil && routeOK(c)
+//
+//@ func (*converter).ForEnd
+//@   requires[C13,C16] inv: len(c.fors) > 0 && forsFresh(c) && endsFresh(c)
+//@   ensures[C05,C16] jumps-to-own-head-defines-own-end: appended(specBlock(c), old(specBlockBefore(c)), "goto " + old(c.fors)[len(old(c.fors)) - 1].label, ")", old(c.endLabels)[len(old(c.endLabels)) - 1]) && result == nil
+//@   ensures[C05,C16] pops: len(c.fors) == len(old(c.fors)) - 1 && samePrefix(c.fors, old(c.fors)) && len(c.endLabels) == len(old(c.endLabels)) - 1 && samePrefix(c.endLabels, old(c.endLabels)) && c.forCounter == old(c.forCounter) && c.endCounter == old(c.endCounter)
+//@   ensures[C05,C16] inv-kept: routeOK(c) && forsFresh(c) && endsFresh(c)
+//
+//@ func (*converter).Break
+//@   requires[C13,C16] inv: len(c.endLabels) > 0
+//@   ensures[C05,C16] leaves-innermost-loop: appended(specBlock(c), old(specBlockBefore(c)), "goto " + c.endLabels[len(c.endLabels) - 1]) && result == nil && routeOK(c)
+//
+//@ func (*converter).Continue
+//@   requires[C13,C16] inv: len(c.fors) > 0
+//@   ensures[C05,C16] restarts-innermost-loop: appended(specBlock(c), old(specBlockBefore(c)), "goto " + c.fors[len(c.fors) - 1].label) && result == nil && routeOK(c)
+//
+//@ func (*converter).Nop
+//@   ensures[C16] non-empty-body: appended(specBlock(c), old(specBlockBefore(c)), "rem No operation") && result == nil && routeOK(c)
+//
+//@ func (*converter).VarDefinition
+//@   ensures[C05] line: appended(specBlock(c), old(specBlockBefore(c)), specSet(specName(len(c.funcs) > 0, c.funcCounter, name, global), value)) && result == nil && routeOK(c)
+//@   ensures[C05] frame: sameExcept(c, old(c), "globalCode", "functionsCode", "previousFunctionName")
+//
+//@ func (*converter).VarAssignment
+//@   ensures[C05] line: appended(specBlock(c), old(specBlockBefore(c)), specSet(specName(len(c.funcs) > 0, c.funcCounter, name, global), value)) && result == nil && routeOK(c)
+//@   ensures[C05] frame: sameExcept(c, old(c), "globalCode", "functionsCode", "previousFunctionName")
+//
+//@ func (*converter).VarEvaluation
+//@   ensures[C05] reference: result == specRef(specName(len(c.funcs) > 0, c.funcCounter, name, global)) && err == nil && sameExcept(c, old(c))
+//
+//@ func (*converter).Group
+//@   ensures[C05] parenthesised: result == "(" + value + ")" && err == nil && sameExcept(c, old(c))
+//
+//@ func (*converter).UnaryOperation
+//@   ensures[C05,C06] error-iff-unknown: (err != nil) == (operator != "!")
+//@   ensures[C05] negation-line: err == nil ==> appended(specBlock(c), old(specBlockBefore(c)), "if " + expr + " equ 1 (" + specSet(specName(len(c.funcs) > 0, c.funcCounter, specHelperName(old(c.varCounter)), false), "0") + ") else " + specSet(specName(len(c.funcs) > 0, c.funcCounter, specHelperName(old(c.varCounter)), false), "1"))
+//@   ensures[C05,C10] result-is-the-fresh-helper: err == nil ==> result == specRef(specName(len(c.funcs) > 0, c.funcCounter, specHelperName(old(c.varCounter)), false))
+//@   ensures[C05] counter: c.varCounter == old(c.varCounter) + 1 && routeOK(c)
+//
+//@ func (*converter).BinaryOperation
+//@   ensures[C05,C06] error-iff-not-allowed: (err != nil) == !(specArithOp(valueType, operator) != "" || specConcat(valueType, operator))
+//@   ensures[C05] nothing-emitted-on-error: err != nil ==> c.globalCode == old(c.globalCode) && c.functionsCode == old(c.functionsCode) && result == ""
+//@   ensures[C05] arithmetic-line: err == nil && specArithOp(valueType, operator) != "" ==> appended(specBlock(c), old(specBlockBefore(c)), "set /A \"" + specName(len(c.funcs) > 0, c.funcCounter, specHelperName(old(c.varCounter)), false) + "=" + left + specArithOp(valueType, operator) + right + "\"")
+//@   ensures[C05] concat-line: err == nil && specConcat(valueType, operator) ==> appended(specBlock(c), old(specBlockBefore(c)), specSet(specName(len(c.funcs) > 0, c.funcCounter, specHelperName(old(c.varCounter)), false), left + right))
+//@   ensures[C05,C10] result-is-the-fresh-helper: err == nil ==> result == specRef(specName(len(c.funcs) > 0, c.funcCounter, specHelperName(old(c.varCounter)), false))
+//@   ensures[C05] counter: c.varCounter == old(c.varCounter) + 1 && routeOK(c)
+//
+//@ func (*converter).Comparison
+//@   ensures[C05,C06] error-iff-not-allowed: (err != nil) == (specCompareOp(valueType, operator) == "")
+//@   ensures[C05] nothing-emitted-on-error: err != nil ==> c.globalCode == old(c.globalCode) && c.functionsCode == old(c.functionsCode) && result == "" && c.varCounter == old(c.varCounter)
+//@   ensures[C05] if-else-line: err == nil ==> appended(specBlock(c), old(specBlockBefore(c)), "if " + specQuote(valueType) + left + specQuote(valueType) + " " + specCompareOp(valueType, operator) + " " + specQuote(valueType) + right + specQuote(valueType) + " (" + specSet(specName(len(c.funcs) > 0, c.funcCounter, specHelperName(old(c.varCounter)), false), "1") + ") else " + specSet(specName(len(c.funcs) > 0, c.funcCounter, specHelperName(old(c.varCounter)), false), "0"))
+//@   ensures[C05,C10] result-is-the-fresh-helper: err == nil ==> result == specRef(specName(len(c.funcs) > 0, c.funcCounter, specHelperName(old(c.varCounter)), false)) && c.varCounter == old(c.varCounter) + 1
+//@   ensures[C05] route-kept: routeOK(c)
+//
+//@ func (*converter).LogicalOperation
+//@   ensures[C05,C06] error-iff-unknown: (err != nil) == (operator != "&&" && operator != "||")
+//@   ensures[C05] and-line: err == nil && operator == "&&" ==> appended(specBlock(c), old(specBlockBefore(c)), "if " + left + " equ 1 (if " + right + " equ 1 (" + specSet(specName(len(c.funcs) > 0, c.funcCounter, specHelperName(old(c.varCounter)), false), "1") + ") else " + specSet(specName(len(c.funcs) > 0, c.funcCounter, specHelperName(old(c.varCounter)), false), "0") + ") else " + specSet(specName(len(c.funcs) > 0, c.funcCounter, specHelperName(old(c.varCounter)), false), "0"))
+//@   ensures[C05] or-line: err == nil && operator == "||" ==> appended(specBlock(c), old(specBlockBefore(c)), "if " + left + " equ 1 (" + specSet(specName(len(c.funcs) > 0, c.funcCounter, specHelperName(old(c.varCounter)), false), "1") + ") else if " + right + " equ 1 (" + specSet(specName(len(c.funcs) > 0, c.funcCounter, specHelperName(old(c.varCounter)), false), "1") + ") else " + specSet(specName(len(c.funcs) > 0, c.funcCounter, specHelperName(old(c.varCounter)), false), "0"))
+//@   ensures[C05,C10] result-is-the-fresh-helper: err == nil ==> result == specRef(specName(len(c.funcs) > 0, c.funcCounter, specHelperName(old(c.varCounter)), false))
+//@   ensures[C05] counter: c.varCounter == old(c.varCounter) + 1 && routeOK(c)
+//
+//@ func (*converter).FuncStart
+//@   requires[C13,C16] named: name != ""
+//@   ensures[C05,C16] pushes: appended(c.funcs, old(c.funcs), funcInfoOf(name)) && c.funcCounter == old(c.funcCounter) + 1 && result == nil
+//
+//@ func (*converter).popEndLabel
+//@   requires[C13,C16] in-loop: len(c.endLabels) > 0
+//@   ensures[C05,C16] pops-top: result == old(c.endLabels)[len(old(c.endLabels)) - 1] && len(c.endLabels) == len(old(c.endLabels)) - 1 && samePrefix(c.endLabels, old(c.endLabels))
+//@   ensures[C05] frame: sameExcept(c, old(c), "endLabels")
+//
+//@ func (*converter).FuncEnd
+//@   requires[C13,C16] inv: len(c.funcs) > 0
+//@   ensures[C05,C16] return-and-skip-labels: appended(c.functionsCode[len(c.functionsCode) - 1], old(specBlockBefore(c)), ":_ret_" + old(c.funcs)[len(old(c.funcs)) - 1].name, "exit /B", ":_eo_" + old(c.funcs)[len(old(c.funcs)) - 1].name, ":: " + old(c.funcs)[len(old(c.funcs)) - 1].name + " function end")
+//@   ensures[C05,C16] pops: len(c.funcs) == len(old(c.funcs)) - 1 && samePrefix(c.funcs, old(c.funcs)) && result == nil
+//
+//@ func (*converter).Return
+//@   requires[C13,C16] inv: len(c.funcs) > 0
+//@   loop 1 invariant[C05] frame: routeOK(c) && c.funcs == old(c.funcs)
+//@   ensures[C05,C16] still-in-function: c.funcs == old(c.funcs) && result == nil && routeOK(c)
